@@ -517,8 +517,8 @@ int main(int argc, char** argv) {
         }
         if (firstRecord && probe14 >= 0) {
             firstRecord = false;
-            vh::P("subsystemKeepsBackPointer", "subsystem_back_pointer.lost_with_1_to_4_subsystems", probe14, 0.5);
-            vh::P("subsystemKeepsBackPointer", "subsystem_back_pointer.lost_on_array_growth_5_plus_subsystems", probe58, 0.5);
+            vh::P("subsystemKeepsBackPointer", "subsystem_back_pointer.setNumSubsystems_1_to_4", probe14, 0.5);
+            vh::P("subsystemKeepsBackPointer", "subsystem_back_pointer.lost_on_array_growth_5_plus", probe58, 0.5);
         }
         if (havePline)   // property predicate: a cache entry reads valid only if it was marked valid since ...
             vh::P("neverMarkedInCopy_notValid", "copy.stale_stamp.cache_valid", pline, 0.5);
